@@ -1743,6 +1743,16 @@ impl DistributedTxCoordinator {
 
         let from_phase = tx.phase;
 
+        // Committing means the commit decision has been made and handed out for broadcast
+        // (`recover()` / `get_pending_decisions()`); only its completion is outstanding. The
+        // decision never changes afterwards, so a late abort request is refused.
+        if from_phase == TxPhase::Committing {
+            tracing::warn!(tx_id = tx_id, "Abort refused: transaction is committing");
+            return Err(ChainError::TransactionFailed(format!(
+                "transaction {tx_id} is already committing"
+            )));
+        }
+
         tracing::warn!(
             tx_id = tx_id,
             from_phase = ?from_phase,
@@ -1797,7 +1807,9 @@ impl DistributedTxCoordinator {
         let mut pending = self.pending.write();
         let timed_out: Vec<_> = pending
             .iter()
-            .filter(|(_, tx)| tx.is_timed_out())
+            // A transaction that is Committing has been decided; the deadline only bounds
+            // the time a transaction may stay undecided.
+            .filter(|(_, tx)| tx.is_timed_out() && tx.phase != TxPhase::Committing)
             .map(|(id, _)| *id)
             .collect();
 
